@@ -1,6 +1,6 @@
 (* C16 — signal identity.  Theorems only. *)
 From Coq Require Import ZArith Bool List.
-From KD Require Import Model.Values Model.Validate Model.Perm Model.Glob Model.Broker Model.BrokerRun Proofs.Broker.
+From KD Require Import Model.Values Model.Validate Model.Perm Model.Glob Model.Broker Model.BrokerRun Proofs.Broker Proofs.Interleave.
 Open Scope Z_scope.
 
 (* in every state reachable by any history of fewer than 2^31-1 operations, paths and ids are
@@ -41,3 +41,13 @@ Theorem c16_refusal_consumes_nothing : forall db p now clock name dt ct et mn mx
   add_entry db p now clock name dt ct et mn mx al = (db', inr e) -> db' = db.
 Proof. exact add_refusal_no_effect. Qed.
 Print Assumptions c16_refusal_consumes_nothing.
+
+(* concurrent registrations: every interleaving of registrations (each is one database.write()
+   section, checked against the recorded lock trace) keeps paths and ids mutually inverse, so
+   different paths get different ids *)
+Theorem c16_concurrent_distinct : forall (regs : list (state -> state)) st0 ts st,
+  (forall f, In f regs -> exists p name dt ct et mn mx al, f = reg_section p name dt ct et mn mx al) ->
+  db_inv (st_db st0) -> next_id (st_db st0) + Z.of_nat (length regs) < 2147483647 ->
+  ireach state (map (fun f => [f]) regs, st0) (ts, st) -> db_inv (st_db st).
+Proof. exact registrations_all_schedules. Qed.
+Print Assumptions c16_concurrent_distinct.
